@@ -766,8 +766,25 @@ def isCandidate (be : Backend) (floor : Nat) (p : BPath) : Bool :=
       | _ => true
   | .mt _ => false
 
+/-- the order in which the backend lists payload objects (`InMemory`: by path): the generation prefix
+first — by key, then by generation (timestamp-major identifiers) — then the legacy `data/` prefix -/
+def bpathLt : BPath → BPath → Bool
+  | .gen k g, .gen k' g' =>
+      if pathLt k k' then true else if pathLt k' k then false
+      else g.ts < g'.ts || (g.ts == g'.ts && g.id < g'.id)
+  | .gen .., _ => true
+  | .data k, .data k' => pathLt k k'
+  | .data _, .mt _ => true
+  | _, _ => false
+
+def insertSorted (p : BPath) : List BPath → List BPath
+  | [] => [p]
+  | q :: qs => if bpathLt p q then p :: q :: qs else q :: insertSorted p qs
+
+/-- the sweep's candidates, in listing order (the order matters only for which deletions a collection
+that dies half-way has performed) -/
 def gcCandidates (be : Backend) (floor : Nat) : List BPath :=
-  (be.map (·.1)).filter (isCandidate be floor)
+  ((be.map (·.1)).filter (isCandidate be floor)).foldr insertSorted []
 
 /-- `is_referenced`: does the key's *current* commit point reference this payload? -/
 def isReferenced (be : Backend) (p : BPath) : Bool :=
